@@ -192,40 +192,10 @@ def linf_pre(self):
     return series_in(self) and window_fields_fixed(self) and self.a <= self.n
 
 
-@hint(LINF + '.rfa', before='x.extend_linspace(direction=')
-def linf_h_os(self, x, y, n):
-    """what the initial oversampling produced (contracts of oversample_linspace / oversample_piecewise_constant)"""
-    return (n == self.n and x.n == n and y.n == n and len(x.a) == (len(self.x) - 1) * n + 1 and len(y.a) == len(x.a)
-            and x.a[n] == self.x[1] and x.a[0] == self.x[0]
-            and x.a[(len(self.x) - 1) * n] == self.x[len(self.x) - 1] and x.a[(len(self.x) - 2) * n] == self.x[len(self.x) - 2]
-            and (len(self.x) - 1) * n - n == (len(self.x) - 2) * n)
-
-
 @hint(LINF + '.rfa', before='for k in range(1, x.nr_of_full_intervals() - 1)')
-def linf_h_grid_x_len(self, x, n):
-    return n == self.n and x.n == n and len(x.a) == ext_len(self)
-
-
-@hint(LINF + '.rfa', before='for k in range(1, x.nr_of_full_intervals() - 1)')
-def linf_h_grid_x_mid(self, x, n):
-    """middle part of the extended grid = the n-fold oversampling.  `ident` (an opaque identity) keeps the index in the
-    shape  n + i  with  i = (k-1)*n + j  so that the contracts of extend_linspace / oversample_linspace are instantiated"""
-    return forall(range(1, len(self.x)), lambda k: forall(range(self.n), lambda j:
-                  x.a[n + ident(ident(k - 1) * n + j)] == self.x[k - 1] + j * (self.x[k] - self.x[k - 1]) / self.n
-                  and x.a[k * n + j] == x.a[n + ident(ident(k - 1) * n + j)]))
-
-
-@hint(LINF + '.rfa', before='for k in range(1, x.nr_of_full_intervals() - 1)')
-def linf_h_grid_x_ends(self, x, n):
-    return (forall(range(self.n), lambda j: x.a[j] == (2 * self.x[0] - self.x[1]) + j * (self.x[1] - self.x[0]) / self.n)
-            and forall(range(1, self.n + 1), lambda j: x.a[n + ((len(self.x) - 1) * n + 1) + (j - 1)]
-                       == self.x[len(self.x) - 1] + j * (self.x[len(self.x) - 1] - self.x[len(self.x) - 2]) / self.n)
-            and x.a[len(self.x) * n] == self.x[len(self.x) - 1])
-
-
-@hint(LINF + '.rfa', before='for k in range(1, x.nr_of_full_intervals() - 1)')
-def linf_h_grid_y(self, y, z, n):
-    return y.n == n and z.n == n and grid_y(self, y.a) and len(z.a) == ext_len(self) and is_ndarray(z.a)
+def linf_h_lens(self, x, y, z, n):
+    return (n == self.n and x.n == n and y.n == n and z.n == n and len(x.a) == ext_len(self) and len(y.a) == ext_len(self)
+            and len(z.a) == ext_len(self) and is_ndarray(z.a) and is_ndarray(x.a))
 
 
 @invariant(LINF + '.rfa', loop=1)
@@ -243,6 +213,102 @@ def linf_inv3(self, z, n, k):
     return len(z.a) == ext_len(self) and z.n == n and is_ndarray(z.a) and 1 <= k and k <= len(self.x) - 1
 
 
-@ensures(LINF + '.rfa')
+ghost(LINF + '.rfa', before='x.extend_linspace(direction=', name='osx', expr='x.a')
+ghost(LINF + '.rfa', before='y.extend_constant(direction=', name='osy', expr='y.a')
+
+
+@hint(LINF + '.rfa', scoped=True)
+def linf_h_xs(self, osx, result):
+    """the returned abscissae are the middle part of the extended grid = the initial oversampling"""
+    return len(result[0]) == len(osx) and forall(range(len(osx)), lambda i: result[0][i] == osx[i])
+
+
+@ensures(LINF + '.rfa', uses=['linf_h_xs'])
 def linf_grid(self, result):
     return grid_ok(self.x, self.n, result)
+
+
+# =============================================================================== ExpFixedRFA.rfa (C04 structure)
+
+contract(EXPF + '.rfa', params=dict(self=Obj(EXPF)), returns=Tuple(Seq(Real), Seq(Real)))
+
+
+@requires(EXPF + '.rfa')
+def expf_pre(self):
+    return (series_in(self) and window_fields_fixed(self) and self.a <= self.n and 0 <= self.b and self.b <= self.a_l
+            and self.exp > 0)
+
+
+@hint(EXPF + '.rfa', before='for k in range(1, x.nr_of_full_intervals() - 1)')
+def expf_h_lens(self, x, y, z, n):
+    return (n == self.n and x.n == n and y.n == n and z.n == n and len(x.a) == ext_len(self) and len(y.a) == ext_len(self)
+            and len(z.a) == ext_len(self) and is_ndarray(z.a) and is_ndarray(x.a))
+
+
+@invariant(EXPF + '.rfa', loop=1)
+def expf_inv1(self, z, n, k):
+    return len(z.a) == ext_len(self) and z.n == n and is_ndarray(z.a) and 1 <= k
+
+
+@invariant(EXPF + '.rfa', loop=2)
+def expf_inv2(self, z, n, k):
+    return len(z.a) == ext_len(self) and z.n == n and is_ndarray(z.a) and 1 <= k and k <= len(self.x) - 1
+
+
+@invariant(EXPF + '.rfa', loop=3)
+def expf_inv3(self, z, n, k):
+    return len(z.a) == ext_len(self) and z.n == n and is_ndarray(z.a) and 1 <= k and k <= len(self.x) - 1
+
+
+@invariant(EXPF + '.rfa', loop=4)
+def expf_inv4(self, z, n, k):
+    return len(z.a) == ext_len(self) and z.n == n and is_ndarray(z.a) and 1 <= k and k <= len(self.x) - 1
+
+
+@invariant(EXPF + '.rfa', loop=5)
+def expf_inv5(self, z, n, k):
+    return len(z.a) == ext_len(self) and z.n == n and is_ndarray(z.a) and 1 <= k and k <= len(self.x) - 1
+
+
+ghost(EXPF + '.rfa', before='x.extend_linspace(direction=', name='osx', expr='x.a')
+
+
+@hint(EXPF + '.rfa', scoped=True)
+def expf_h_xs(self, osx, result):
+    return len(result[0]) == len(osx) and forall(range(len(osx)), lambda i: result[0][i] == osx[i])
+
+
+@ensures(EXPF + '.rfa', uses=['expf_h_xs'])
+def expf_grid(self, result):
+    return grid_ok(self.x, self.n, result)
+
+
+# =============================================================================== adaptive windows
+
+GATP = LINA + '.get_adaptive_transition_points'
+IA = 'traffic_weaver.interval.IntervalArray'
+
+contract(GATP, params=dict(x=Obj(IA), y=Obj(IA), a=Int, adaptive_smooth=Real),
+         returns=Tuple(Seq(Int, kind='list'), Seq(Int, kind='list'), Any), no_frame=True)
+
+
+@requires(GATP)
+def gatp_pre(x, y, a, adaptive_smooth):
+    return (a >= 2 and adaptive_smooth > 0 and x.n >= 2 and y.n == x.n and len(y.a) == len(x.a) and len(x.a) >= 3 * x.n + 1
+            and len(x.a) % x.n == 1)
+
+
+def windows_ok(ws, count, a):
+    """one (integer) window size per interval, virtual intervals included, each within 0..a"""
+    return len(ws) == count and forall(range(count), lambda k: 0 <= ws[k] and ws[k] <= a)
+
+
+@invariant(GATP, loop=1)
+def gatp_inv(x, y, a, a_ls, a_rs, k):
+    return (1 <= k and len(a_ls) == k and len(a_rs) == k and a >= 2
+            and forall(range(k), lambda i: 0 <= a_ls[i] and a_ls[i] <= a and 0 <= a_rs[i] and a_rs[i] <= a))
+
+
+@ensures(GATP)
+def gatp_post(x, y, a, adaptive_smooth, result):
+    return (windows_ok(result[0], len(x.a) // x.n + 0, a) and windows_ok(result[1], len(x.a) // x.n + 0, a))
